@@ -63,6 +63,7 @@ def execStd (op : String) (a : List String) : String :=
 
 def execCodec (op : String) (a : List String) : String :=
   match op, a with
+  | "conc", _ => "ok"      -- the decoders run from several goroutines at once: same reports as alone (no model of the scheduler)
   | "uri", [s] => match parseAddrSpec (unhex s) with
       | none => "err"
       | some as => s!"ok {toHexField as.encode} {toHexField as.encode} {addrSpecFields as}"
